@@ -395,6 +395,10 @@ def gen(rng: random.Random, k: int, tier: str) -> dict:
         # two renames can compose into a consistent spec (a swap): same-class pairs only for non-rename classes
         if a["cls"] == b["cls"] and a["cls"] in ("dup_channel", "dup_sample"):
             continue
+        # two sample-length faults in ONE channel can compose into a consistent channel with another bin count
+        # (all its samples lengthened alike): not a fault (false alarm found by a soak at seed 2, segment 42)
+        if a["cls"] == b["cls"] == "sample_len" and a["pos"][0] == b["pos"][0]:
+            continue
         # combine only if the two edits touch different lists/leaves (keeps indices valid)
         pa = {tuple(e[1][:4]) for e in a["edits"]}
         pb = {tuple(e[1][:4]) for e in b["edits"]}
